@@ -191,6 +191,11 @@ func genFields(rng *rand.Rand, pf Profile, kind string, tag int) []Field {
 		f.S = rng.Intn(10) == 0
 		fs = append(fs, f)
 	}
+	if c09 && kind == "trailer" && rng.Intn(5) == 0 {
+		// a block larger than one frame (trailers always carry END_STREAM, so C08's continuation
+		// defect does not interfere): the relay must cut it to the receiver's MAX_FRAME_SIZE
+		fs = append(fs, Field{N: "x-big-trailer", V: randString(rng, 17000+rng.Intn(30000))})
+	}
 	if c09 {
 		// never-indexed fields: C09 sessions do not depend on HPACK state
 		for i := range fs {
@@ -347,7 +352,11 @@ func Gen(rng *rand.Rand, pf Profile) *Plan {
 					m = nm
 				}
 			}
-			if !c09 && rng.Intn(5) == 0 {
+			// at most one HEADER_TABLE_SIZE announcement per endpoint and session: two changes with no
+			// header block in between make the peer's encoder emit two dynamic table size updates at the
+			// start of its next block, which x/net's 2019 hpack.Decoder (used by the relay) rejects;
+			// exercised by the separate x-net-limit probes instead
+			if !c09 && h < 0 && rng.Intn(4) == 0 {
 				nh := []int64{0, 100, 4096, 20000}[rng.Intn(4)]
 				cur := h
 				if cur < 0 {
